@@ -143,6 +143,100 @@ spec fn is_lowered_binary(op: BinaryOperator, e1: LirExpression, e2: LirExpressi
         && is_lowered_binary(*operator, *e1, *e2, *r@[0]->Inline_0->LocalSet_1),  // :same_operator_on_the_lowered_operands_in_source_order
 //@end
 
+// =====================================================================================
+// Vec<int>: element values cross the runtime as i31 references
+// =====================================================================================
+uninterp spec fn vec_of_fn() -> FunctionName;
+uninterp spec fn vec_push_fn() -> FunctionName;
+uninterp spec fn vec_set_fn() -> FunctionName;
+uninterp spec fn vec_pop_fn() -> FunctionName;
+uninterp spec fn vec_get_fn() -> FunctionName;
+uninterp spec fn unwrap_i31_fn() -> FunctionName;
+impl FunctionName {
+  /// R3: the named constants mir::FunctionName::{VEC_OF, VEC_PUSH, VEC_SET, VEC_POP, VEC_GET, UNWRAP_I31} and `==` on the opaque name
+  #[verifier::external_body]
+  fn vec_of() -> (r: FunctionName) ensures r == vec_of_fn() { unimplemented!() }
+  #[verifier::external_body]
+  fn vec_push() -> (r: FunctionName) ensures r == vec_push_fn() { unimplemented!() }
+  #[verifier::external_body]
+  fn vec_set() -> (r: FunctionName) ensures r == vec_set_fn() { unimplemented!() }
+  #[verifier::external_body]
+  fn vec_pop() -> (r: FunctionName) ensures r == vec_pop_fn() { unimplemented!() }
+  #[verifier::external_body]
+  fn vec_get() -> (r: FunctionName) ensures r == vec_get_fn() { unimplemented!() }
+  #[verifier::external_body]
+  fn unwrap_i31() -> (r: FunctionName) ensures r == unwrap_i31_fn() { unimplemented!() }
+  #[verifier::external_body]
+  fn is(&self, other: FunctionName) -> (r: bool) ensures r == (*self == other) { unimplemented!() }
+}
+
+//@extract crates/samlang-compiler/src/wasm_lowering.rs :: fn vec_fn_element_arg_index
+//@ret r
+//@replace name == mir::FunctionName::VEC_OF || name == mir::FunctionName::VEC_PUSH => name.is(FunctionName::vec_of()) || name.is(FunctionName::vec_push()) ## R3: comparison with the named constants of the opaque name
+//@replace name == mir::FunctionName::VEC_SET => name.is(FunctionName::vec_set()) ## R3: comparison with the named constant of the opaque name
+//@replace name: mir::FunctionName => name: FunctionName ## R1: module path of the opaque type
+//@contract
+    ensures r == (if name == vec_of_fn() || name == vec_push_fn() { Some(1usize) } else if name == vec_set_fn() { Some(2usize) } else { None }),  // :element_argument_positions_of_the_vector_runtime
+//@end
+
+//@extract crates/samlang-compiler/src/wasm_lowering.rs :: fn vec_fn_returns_element
+//@ret r
+//@replace name == mir::FunctionName::VEC_POP || name == mir::FunctionName::VEC_GET => name.is(FunctionName::vec_pop()) || name.is(FunctionName::vec_get()) ## R3: comparison with the named constants of the opaque name
+//@replace name: mir::FunctionName => name: FunctionName ## R1: module path of the opaque type
+//@contract
+    ensures r == (name == vec_pop_fn() || name == vec_get_fn()),  // :element_returning_functions_of_the_vector_runtime
+//@end
+
+//@extract crates/samlang-compiler/src/wasm_lowering.rs :: fn lir_expr_is_i32
+//@ret r
+//@contract
+    ensures r == (e is Int32Literal || (e is Variable && e->Variable_1 is Int32)),  // :i32_operands_are_literals_and_int_typed_variables
+//@end
+
+/// the boxing decision for one argument of a call (the `if` inside the argument closure of the Call arm), R14 block
+//@extractblock crates/samlang-compiler/src/wasm_lowering.rs :: impl<'a> LoweringManager<'a> / fn lower_stmt
+//@from if Some(i) == vec_element_arg && lir_expr_is_i32(arg) {
+//@to return wasm::InlineInstruction::I31New(Box::new(lowered)); }
+//@replace wasm::InlineInstruction::I31New => InlineInstruction::I31New ## R1: module path of the extracted type
+//@replace Some(i) == vec_element_arg => vec_element_arg == Some(i) && true ## R9: derived PartialEq on Option<usize>, operands exchanged (Verus has no spec for Option == Option with the literal on the left)
+//@wrap fn box_vec_element(i: usize, vec_element_arg: Option<usize>, arg: &LirExpression, lowered: InlineInstruction) -> (r: InlineInstruction)
+//@contract
+    ensures
+      // an i32 element handed to the vector runtime is passed as `ref.i31`
+      r == (if vec_element_arg == Some(i) && (arg is Int32Literal || (arg is Variable && arg->Variable_1 is Int32))
+            { InlineInstruction::I31New(Box::new(lowered)) } else { lowered }),  // :int_elements_are_boxed_as_i31
+//@atend
+  lowered
+//@end
+
+// ---- what that means for the value (WebAssembly GC: ref.i31 keeps the low 31 bits, i31.get_s sign-extends them;
+// libsam.wat $__$unwrapI31 = (i31.get_s (ref.cast (ref i31) v)); the TypeScript runtime stores the number itself)
+spec fn i31_round_trip(x: int) -> int {
+  let low = x % 0x8000_0000;                         // low 31 bits (x mod 2^31, non-negative)
+  if low >= 0x4000_0000 { low - 0x8000_0000 } else { low }
+}
+proof fn lemma_i31_round_trip_is_identity_on_31_bit_values(x: int)
+  requires -0x4000_0000 <= x < 0x4000_0000
+  ensures i31_round_trip(x) == x  // :vector_elements_of_31_bits_survive
+{
+  if x >= 0 { assert(x % 0x8000_0000 == x) by { vstd::arithmetic::div_mod::lemma_small_mod(x as nat, 0x8000_0000); } }
+  else {
+    assert((x + 0x8000_0000) % 0x8000_0000 == x + 0x8000_0000) by { vstd::arithmetic::div_mod::lemma_small_mod((x + 0x8000_0000) as nat, 0x8000_0000); }
+    assert(x % 0x8000_0000 == (x + 0x8000_0000) % 0x8000_0000) by { vstd::arithmetic::div_mod::lemma_mod_add_multiples_vanish(x, 0x8000_0000); }
+  }
+}
+/// C04 / C01 for Vec<int>, all element values: NOT provable — the next lemma is the witness
+proof fn lemma_vector_elements_survive_for_all_i32(x: int)
+  requires i32::MIN <= x <= i32::MAX
+  ensures i31_round_trip(x) == x  // :every_i32_vector_element_is_read_back_unchanged
+{
+}
+proof fn lemma_bit_30_is_lost()
+  ensures i31_round_trip(1073741824) == -1073741824  // :witness_1073741824_reads_back_negative
+{
+  assert(1073741824int % 0x8000_0000 == 1073741824) by { vstd::arithmetic::div_mod::lemma_small_mod(1073741824nat, 0x8000_0000); }
+}
+
 proof fn canary_must_fail_wasmlower() ensures false {}
 
 } // verus!
